@@ -245,14 +245,23 @@ CHECKS['C14'] = dict(
     ref='DESIGN.md section 5, C14 and section 12')
 
 CHECKS['C03'] = dict(
-    category='exploration',
-    text='Interim level: a seeded grammar produces trees of CommonMark/GFM constructs (depth <= 4, all block and inline kinds '
-         'the property lists), writes each in one of the spellings the specification leaves free, and independently the '
-         'HTML the specification assigns to the tree; the implementation output must be equivalent under the specification '
-         'test normalisation. The compositional Lean proof over the parser model is the planned upgrade.',
-    note='Trusted: gen_tree.py (writer + expected-HTML writer) and specnorm.py as oracle. Interim level, see DESIGN.md C03.',
-    technique='generator-with-independent-oracle exploration (compositional Lean proof pending the parser model)',
-    ref='DESIGN.md section 5, C03')
+    text='Lean 4 compositional theorem for a fragment of the grammar at EVERY nesting depth, by induction over the tree '
+         'from the theorems of C14 (inert lines form one paragraph of raw text), C04 (quote wrapping) and C05 (blank-line '
+         'independence) plus the dispatch on ATX heading and thematic-break lines: for every well-formed forest of '
+         'paragraphs (0-3 spaces of indent), ATX headings and thematic breaks in any spelling the dispatcher accepts, and '
+         'block quotes of these with either marker, Document(write(tree)) is exactly the tree with its line numbers and '
+         'HtmlRenderer returns byte for byte the HTML written directly from the tree, for the token lists regenerated '
+         'from /repo; two spellings of one tree give the same HTML. The hypothesis is executable: each run generates '
+         'random forests, evaluates it and the concluded HTML in Lean, and checks the REAL renderer on the written text. '
+         'Everything outside the fragment (setext headings, code blocks, lists, tables, HTML blocks, link definitions, all '
+         'inline constructs other than text and soft breaks, lazy continuation, interruption) is NOT proved: it is '
+         'explored with the tree generator (all block and inline kinds, depth <= 4, free spellings, adjacency without '
+         'spaces) against an independent HTML oracle under the specification driver\'s normalisation.',
+    note='Trusted: Lean kernel (axioms propext/Classical.choice/Quot.sound at most); doc correspondence; the second driver '
+         'evaluating hypotheses and conclusions; gen_tree.py writer + expected-HTML writer and specnorm.py for the '
+         'explored part.',
+    technique='Lean 4 proof (structural induction over the tree composing leaf, wrap and concatenation theorems) + hypothesis/conclusion evaluation checked on the implementation + generator-with-oracle exploration',
+    ref='DESIGN.md section 5, C03 and section 12')
 
 CHECKS['C13'] = dict(
     text='Lean 4 theorems over a model of the whole block phase (FileWrapper, every start/read/check_interrupts_paragraph, '
